@@ -85,12 +85,57 @@ pub fn c_scan_p2<S: Src, const KC: usize, const MC: usize>(s: &mut S) {
     }
 }
 
+/// BOUNDED (read of exactly 6 bases, k = 3, P = Kmer2, pieces as DnaBytes, default permutation, rc mode symbolic):
+/// msp_sequence - every piece is the exact substring of the read, its boundary extensions are exactly the
+/// read's flanking bases (none at a read end), and consecutive pieces cover the read with k-1 overlap.
+pub fn c_msp_sequence_6<S: Src>(s: &mut S) {
+    let mut seq = [0u8; 6];
+    let mut i = 0;
+    while i < 6 {
+        seq[i] = s.u8();
+        s.assume(seq[i] < 4);
+        i += 1;
+    }
+    let rc = s.bool();
+    s.cover(true);
+    let k = 3usize;
+    let pieces = msp_sequence::<Kmer2, crate::DnaBytes>(k, &seq, None, rc);
+    chk!(s, pieces.len() >= 1 && pieces.len() <= 4, "between 1 and m-k+1 pieces");
+    let mut start = 0usize;
+    let mut j = 0;
+    while j < pieces.len() {
+        let (bucket, exts, ref v) = pieces[j];
+        let len = v.0.len();
+        chk!(s, len >= k && start + len <= 6, "piece lies inside the read");
+        let mut t = 0;
+        while t < len {
+            chk!(s, v.0[t] == seq[start + t], "a piece is the exact substring of the read it came from");
+            t += 1;
+        }
+        let mut b = 0u8;
+        while b < 4 {
+            chk!(s, crate::verif::exts::has(exts.val, false, b) == (start > 0 && seq[start - 1] == b), "left extension is exactly the base before the piece (none at the read start)");
+            chk!(s, crate::verif::exts::has(exts.val, true, b) == (start + len < 6 && seq[start + len] == b), "right extension is exactly the base after the piece (none at the read end)");
+            b += 1;
+        }
+        chk!(s, bucket < 16, "bucket id is a canonical p-mer rank");
+        if j + 1 < pieces.len() {
+            start = start + len - (k - 1);
+        } else {
+            chk!(s, start + len == 6, "the last piece ends at the end of the read");
+        }
+        j += 1;
+    }
+}
+
+harness!(m_msp_sequence_6, c_msp_sequence_6, unwind 20);
 harness!(m_scan_p2_k2m5, c_scan_p2::<_, 2, 5>, unwind 18);
 harness!(m_scan_p2_k3m6, c_scan_p2::<_, 3, 6>, unwind 18);
 harness!(m_scan_p2_k4m7, c_scan_p2::<_, 4, 7>, unwind 18);
 
 pub fn replay(name: &str, s: &mut crate::verif::src::RSrc) -> bool {
     match name {
+        "m_msp_sequence_6" => c_msp_sequence_6(s),
         "m_scan_p2_k2m5" => c_scan_p2::<_, 2, 5>(s),
         "m_scan_p2_k3m6" => c_scan_p2::<_, 3, 6>(s),
         "m_scan_p2_k4m7" => c_scan_p2::<_, 4, 7>(s),
